@@ -49,3 +49,30 @@ Definition is_kw_target (k : kind) : bool := match k with POK | KO => true | _ =
 Definition is_var (k : kind) : bool := match k with VP | VK => true | _ => false end.
 Definition has_kind (k : kind) (s : sig) : bool := existsb (fun p => kind_eqb (pkind p) k) s.
 Definition pos_params (s : sig) : sig := filter (fun p => is_positional (pkind p)) s.
+
+(* ---- the grammar of `def` headers:  def f(po.., /, pok.., *vp | *, ko.., **vk) ----
+   kinds in that order, at most one *vp and one **vk, neither with a default,
+   no parameter without default after one with a default among po/pok
+   ("non-default argument follows default argument"), distinct names.
+   `ph` = phase of the previous parameter (0 po, 1 pok, 2 *vp, 3 ko, 4 **vk). *)
+Definition phase (k : kind) : nat :=
+  match k with PO => 0 | POK => 1 | VP => 2 | KO => 3 | VK => 4 end.
+(* the latest phase that may precede a parameter of kind k *)
+Definition phase_bound (k : kind) : nat :=
+  match k with PO => 0 | POK => 1 | VP => 1 | KO => 3 | VK => 3 end.
+
+Fixpoint def_ok (ph : nat) (seen_default : bool) (s : sig) : bool :=
+  match s with
+  | [] => true
+  | p :: r =>
+      Nat.leb ph (phase_bound (pkind p))
+      && match pkind p with
+         | PO | POK => pdefault p || negb seen_default
+         | VP | VK => negb (pdefault p)
+         | KO => true
+         end
+      && def_ok (phase (pkind p))
+                (match pkind p with PO | POK => seen_default || pdefault p | _ => seen_default end) r
+  end.
+
+Definition def_header_ok (s : sig) : bool := def_ok 0 false s && names_nodup (map pname s).
